@@ -100,14 +100,15 @@ theorem defineLocal_fresh (s : State) (idx : Nat) (v : V)
     simp only [exec_bumpIp, exec_pure]
   exact ⟨e, by rw [e]⟩
 
-/-- SETLOCAL on a slot holding a box writes THROUGH the box (the captured variable itself is
+/-- SETLOCAL on a slot holding a box (whose cell is a box cell, as in every VM state) writes THROUGH the box (the captured variable itself is
     updated, so every closure sharing it sees the assignment); the slot keeps the same box -/
 theorem setLocal_writes_through_box (s : State) (idx : Nat) (v : V) (a : Addr)
     (hop : exec (opnd1 1) s = (.ok idx, s))
     (hsp : 1 ≤ s.sp ∧ s.sp ≤ (stackSize : Int))
     (hslot : 0 ≤ (s.frames[s.curFrame]!).bp + idx ∧ (s.frames[s.curFrame]!).bp + idx < (stackSize : Int))
     (hv : s.stack[(s.sp - 1).toNat]! = v)
-    (hbox : s.stack[((s.frames[s.curFrame]!).bp + idx).toNat]! = .box a) :
+    (hbox : s.stack[((s.frames[s.curFrame]!).bp + idx).toNat]! = .box a)
+    (hcell : ∃ w, s.heap[a]? = some (.box w)) :
     exec execSetLocal s = (.ok .next,
       { s with heap := s.heap.set! a (.box v), stack := s.stack.set! (s.sp - 1).toNat .nil,
                sp := s.sp - 1, ip := s.ip + 1 }) := by
@@ -116,7 +117,11 @@ theorem setLocal_writes_through_box (s : State) (idx : Nat) (v : V) (a : Addr)
   rw [exec_stackGet _ _ (by omega)]
   simp only [hv, exec_curFrame]
   rw [exec_stackGet _ _ hslot]
-  simp only [hbox, exec_bind, exec_heapSet, exec_setSp]
+  obtain ⟨w, hw⟩ := hcell
+  have hbs : exec (boxSet a v) s = (.ok (), { s with heap := s.heap.set! a (.box v) }) := by
+    unfold boxSet heapGet
+    simp only [exec_bind, exec_getS, hw, exec_pure, exec_heapSet]
+  simp only [hbox, exec_bind, hbs, exec_setSp]
   rw [exec_stackSet _ _ _ (by simp; omega)]
   simp only [exec_bumpIp, exec_pure]
 
